@@ -3,6 +3,7 @@ package main
 import (
 	"encoding/json"
 	"fmt"
+	"google.golang.org/protobuf/reflect/protoreflect"
 	"path/filepath"
 	"sort"
 	"time"
@@ -206,4 +207,8 @@ func stringsIndex(s, sub string) int {
 		}
 	}
 	return -1
+}
+
+func wireParseScalar(fd protoreflect.FieldDescriptor, s string) (protoreflect.Value, error) {
+	return wire.ParseScalar(fd, s)
 }
